@@ -241,6 +241,13 @@ def complete (chunked : Bool) (st : RawSt) : RawSt :=
      else RawSt.moveAll { st with reqlen := -st.reqlen })
   else st
 
+/-- a streamed (Transfer-Encoding: chunked) upload as the gateway runs it: create_env with the
+    first segment queued and the total length unknown (wb_reqlen negative), later arrivals
+    re-chunked by proxy_stdin_append(), then completion -/
+def runChunked (hdr seg0 : Bytes) (segs : List Bytes) : RawSt :=
+  let st0 := stdinAppend { out := hdr, reqlen := -(hdr.length : Int), pending := seg0 }
+  complete true (segs.foldl (arrive {} true) st0)
+
 /-! receiving side: HTTP/1.1 chunked transfer coding (RFC 9112 7.1), no extensions/trailers -/
 
 def hexValNat (b : UInt8) : Option Nat := (hexVal b).map (·.toNat)
